@@ -211,10 +211,105 @@ func c15Scenario(p c15Params) *explore.Scenario {
 	return sc
 }
 
+// c15StreamScenario: a burst of n distinct lines (more than the input queue holds) to fg foreground and bg
+// background handlers. Every handler records a deep image of what it is given and then edits it; per handler the
+// images must be exactly the n parsed events, each once - whichever goroutine copies the line and whenever.
+func c15StreamScenario(n, fg, bg int) *explore.Scenario {
+	sc := &explore.Scenario{
+		Family: "line-copy",
+		Name:   fmt.Sprintf("line-copy/stream=%d/fg=%d/bg=%d", n, fg, bg),
+		Params: map[string]interface{}{"stream": n, "fg": fg, "bg": bg},
+		Opt:    vx.Options{MaxSteps: 200000},
+	}
+	var raws, images []string
+	for i := 0; i < n; i++ {
+		r := fmt.Sprintf("@n=%d;k :o%d!u@h FOO a%d :text %d", i, i, i, i)
+		raws = append(raws, r)
+		images = append(images, lineImage(client.ParseLine(r)))
+	}
+	sc.Main = func(env *vx.Env) {
+		c := NewClient("me", nil)
+		mk := func(id string) client.HandlerFunc {
+			return func(conn *client.Conn, line *client.Line) {
+				vx.Observe("ev", fmt.Sprintf("entry %s %s", id, lineImage(line)))
+				scribble(line, id)
+			}
+		}
+		for i := 0; i < fg; i++ {
+			c.HandleFunc("FOO", mk(fmt.Sprintf("fg%d", i)))
+		}
+		for i := 0; i < bg; i++ {
+			c.HandleBG("FOO", mk(fmt.Sprintf("bg%d", i)))
+		}
+		var vc *vx.Conn
+		env.ConnSetup = func(x *vx.Conn) { vc = x }
+		if err := c.Connect(); err != nil {
+			return
+		}
+		vx.Quiesce()
+		vc.SendLines(raws...)
+		vx.Quiesce()
+		vc.EOF()
+		vx.Quiesce()
+	}
+	sc.Check = func(o *vx.Outcome) []explore.Finding {
+		if fs := stdOutcome(o); fs != nil {
+			return fs
+		}
+		got := map[string]map[string]int{}
+		for _, r := range o.Log("ev") {
+			f := strings.SplitN(r, " ", 3)
+			if got[f[1]] == nil {
+				got[f[1]] = map[string]int{}
+			}
+			got[f[1]][f[2]]++
+		}
+		var fs []explore.Finding
+		var ids []string
+		for i := 0; i < fg; i++ {
+			ids = append(ids, fmt.Sprintf("fg%d", i))
+		}
+		for i := 0; i < bg; i++ {
+			ids = append(ids, fmt.Sprintf("bg%d", i))
+		}
+		for _, id := range ids {
+			for i, im := range images {
+				if k := got[id][im]; k != 1 {
+					var other string
+					for x := range got[id] {
+						known := false
+						for _, y := range images {
+							known = known || x == y
+						}
+						if !known {
+							other = "; it was given " + x
+							break
+						}
+					}
+					fs = append(fs, explore.Finding{Oracle: "wrong-event-line", Msg: fmt.Sprintf("handler %s was given the parsed line of event %d of %d (%s) %d times, expected once%s", id, i, n, raws[i], k, other)})
+					return fs
+				}
+			}
+			for x, k := range got[id] {
+				known := false
+				for _, y := range images {
+					known = known || x == y
+				}
+				if !known {
+					fs = append(fs, explore.Finding{Oracle: "line-differs-at-entry", Msg: fmt.Sprintf("handler %s was given a line that is none of the parsed events (%d times): %s", id, k, x)})
+					return fs
+				}
+			}
+		}
+		return fs
+	}
+	return sc
+}
+
 func init() {
 	Register(&Prop{
 		ID:   "C15",
-		Rule: "two consecutive events of each line shape {PING, tagged PRIVMSG, 0/1/2/15 arguments, tags without arguments, CTCP, JOIN with tracking} delivered to 1-3 foreground and 0-2 background handlers (two shapes also to 10 and 17 foreground / 9 background handlers; and, for five shapes, two more handlers registered in the internal set next to the built-in ones); every handler records a deep image at entry, edits every argument, tag and field with handler-unique values, and re-reads after yielding; every execution within the deviation budgets; distinct = distinct canonical observation per scenario",
+		Rule: "two consecutive events of each line shape {PING, tagged PRIVMSG, 0/1/2/15 arguments, tags without arguments, CTCP, JOIN with tracking} delivered to 1-3 foreground and 0-2 background handlers (two shapes also to 10 and 17 foreground / 9 background handlers; and, for five shapes, two more handlers registered in the internal set next to the built-in ones); every handler records a deep image at entry, edits every argument, tag and field with handler-unique values, and re-reads after yielding; plus a burst of 40 distinct tagged lines (more than the input queue holds) to 1+2 and 0+3 handlers, each handler's images compared with the 40 parsed events; every execution within the deviation budgets; distinct = distinct canonical observation per scenario",
 		Assumptions: []string{
 			"interleavings at synchronisation/channel/socket granularity plus explicit yields inside handlers (DESIGN.md 3.8)",
 			"'equal to the parsed event' is judged against ParseLine of the wire text (C01 judges the parser itself)",
@@ -254,6 +349,15 @@ func init() {
 					spec := ExploreSpec{Sc: c15Scenario(c15Params{Shape: sh, FG: h.fg, BG: h.bg}), Variants: []int{1, 2, 3}, Budgets: []explore.Budget{{0, 0}, {1, 0}}, Cache: true}
 					jobs = append(jobs, ExploreJob("C15", spec, 60))
 				}
+			}
+			// a burst of distinct lines longer than the input queue: whatever storage a line is parsed into must not be
+			// reused while a handler invocation for it is still to come
+			for _, h := range []hc{{1, 2}, {0, 3}} {
+				bs := []explore.Budget{{0, 0}}
+				if tier == "thorough" {
+					bs = append(bs, explore.Budget{K: 1})
+				}
+				jobs = append(jobs, ExploreJob("C15", ExploreSpec{Sc: c15StreamScenario(40, h.fg, h.bg), Variants: []int{1, 2, 3}, Budgets: bs, Cache: true}, 60))
 			}
 			// extra handlers in the internal set (next to the built-in ones), which edit their lines like the others
 			for _, sh := range []string{"ping", "tags", "ctcp", "join", "noargs"} {
